@@ -270,10 +270,11 @@ GENERATORS = {
     # duplex: the input is a byte stream of the sends' contents; `lines` makes one value per send
     # (the client sends newline-terminated strings)
     "g_duplex": generator('lines | each {|x| $"e:($x)"}', (), duplex=True),
-    # DESIGN 6 #12: the worker thread panics after .start
-    "g_bad_parse": generator("this is not ( valid nu", panics=True),
-    "g_ints": generator("[1 2 3] | each {|x| $x}", panics=True),
-    "g_listvalue": generator('["v1" "v2"]', panics=True),
+    # DESIGN 0.5 #12 (fixed 03f07bc; the worker thread used to panic after .start for these three): an expression
+    # that does not parse is refused with .spawn.error, non-strings are skipped, a list value is emitted like a stream
+    "g_bad_parse": dict(generator("this is not ( valid nu"), refused=True),
+    "g_ints": generator("[1 2 3] | each {|x| $x}", ()),
+    "g_listvalue": generator('["v1" "v2"]', ("v1", "v2")),
     "g_nocontent": generator("", nocontent=True),
 }
 
